@@ -984,16 +984,30 @@ func sendEOFTolerated(c *core.Ctx) {
 			}
 			// an abort: the Send error itself (or a plain copy of it: an inlined helper hands it
 			// back through its own result variable) is what the call returns
-			class := map[types.Object]bool{sendErr: true}
+			// followed along the path: a variable joins the class when it receives a member, and leaves it when
+			// it is assigned anything else (the same `err` re-used for CloseRequest or the receive)
+			class := map[types.Object]bool{}
 			for _, st := range s.Steps {
-				if as, ok := st.(*ast.AssignStmt); ok && len(as.Lhs) == len(as.Rhs) {
-					for i, l := range as.Lhs {
+				as, ok := st.(*ast.AssignStmt)
+				if !ok {
+					continue
+				}
+				if ast.Node(as) == sendStmt {
+					class[sendErr] = true
+					continue
+				}
+				for i, l := range as.Lhs {
+					lo := astx.ObjOf(info, l)
+					if lo == nil {
+						continue
+					}
+					if len(as.Lhs) == len(as.Rhs) {
 						if r := astx.ObjOf(info, as.Rhs[i]); r != nil && class[r] {
-							if lo := astx.ObjOf(info, l); lo != nil {
-								class[lo] = true
-							}
+							class[lo] = true
+							continue
 						}
 					}
+					delete(class, lo)
 				}
 			}
 			if ret == nil || len(ret.Results) == 0 || !class[astx.ObjOf(info, ret.Results[len(ret.Results)-1])] {
